@@ -358,6 +358,63 @@ package codecs
 //@ pure bool vp9RefOK(p) = vp9F(p) && vp9P(p) ==> len(p) > vp9RefOff(p) && (bits(p[vp9RefOff(p)], 0, 0) == 1 ==> len(p) > vp9RefOff(p) + 1 && (bits(p[vp9RefOff(p) + 1], 0, 0) == 1 ==> len(p) > vp9RefOff(p) + 2 && bits(p[vp9RefOff(p) + 2], 0, 0) == 0))
 //@ pure bool vp9SSOK(p) = vp9V(p) ==> len(p) > vp9SSOff(p) && (bits(p[vp9SSOff(p)], 4, 4) == 1 ==> len(p) > vp9SSOff(p) + 4*bits(p[vp9SSOff(p)], 7, 5) + 4) && (bits(p[vp9SSOff(p)], 3, 3) == 1 ==> len(p) > vp9SSOff(p) + 1 + ite(bits(p[vp9SSOff(p)], 4, 4) == 1, 4*bits(p[vp9SSOff(p)], 7, 5) + 4, 0) && int(p[vp9SSOff(p) + 1 + ite(bits(p[vp9SSOff(p)], 4, 4) == 1, 4*bits(p[vp9SSOff(p)], 7, 5) + 4, 0)]) == 0)
 
+// ----- VP9 payloader (C12 payloader half, C08) -----
+//
+// Flexible mode: every fragment is |I=1,F=1,B,E| M=1 PICTURE ID (15 bit) | then
+// the next window of the frame; B on the first, E on the last fragment only.
+//@ pure bool vp9FlexDescOK(f, j, n, pid) = int(f[0]) == 144 + ite(j == 0, 8, 0) + ite(j == n - 1, 4, 0) && int(f[1]) == 128 + pid / 256 && int(f[2]) == pid % 256
+//@ spec (*VP9Payloader).payloadFlexible
+//@   requires p.pictureID < 32768
+//@   ensures none [C12,C08]: (int(mtu) <= 3 || len(payload) == 0) ==> len(result0) == 0
+//@   ensures count [C12,C08]: int(mtu) > 3 && len(payload) > 0 ==> len(result0) >= 1 && (len(result0) - 1) * (int(mtu) - 3) < len(payload) && len(payload) <= len(result0) * (int(mtu) - 3)
+//@   ensures sizes [C12,C08]: forall j :: 0 <= j && j < len(result0) ==> result0[j] != nil && fresh(result0[j]) && off(result0[j]) == 0 && len(result0[j]) == 3 + min(int(mtu) - 3, len(payload) - j * (int(mtu) - 3))
+//@   ensures bound [C08,C12]: forall j :: 0 <= j && j < len(result0) ==> 4 <= len(result0[j]) && len(result0[j]) <= int(mtu)
+//@   ensures descriptors [C12]: forall j :: 0 <= j && j < len(result0) ==> vp9FlexDescOK(result0[j], j, len(result0), int(p.pictureID))
+//@   ensures frag_bytes [C12]: forall j, q :: 0 <= j && j < len(result0) && 0 <= q && q < len(result0[j]) - 3 ==> result0[j][3 + q] == payload[j * (int(mtu) - 3) + q]
+//@   ensures owned [C08]: len(result0) > 0 ==> fresh(result0)
+//@   loop 0: invariant consts [C12,C08]: headerSize == 3 && maxFragmentSize == int(mtu) - 3 && maxFragmentSize >= 1
+//@   loop 0: invariant progress [C12,C08]: payloadDataIndex >= 0 && payloadDataRemaining >= 0 && payloadDataIndex + payloadDataRemaining == len(payload) && payloadDataIndex == min(len(payloads) * maxFragmentSize, len(payload)) && (len(payloads) > 0 ==> (len(payloads) - 1) * maxFragmentSize < len(payload)) && len(payloads) >= 0 && (len(payloads) > 0 ==> fresh(payloads)) && (len(payloads) == 0 ==> payloadDataRemaining > 0 && cap(payloads) == 0)
+//@   loop 0: invariant sizes [C12,C08]: forall j :: 0 <= j && j < len(payloads) ==> payloads[j] != nil && fresh(payloads[j]) && off(payloads[j]) == 0 && len(payloads[j]) == 3 + min(maxFragmentSize, len(payload) - j * maxFragmentSize)
+//@   loop 0: invariant descriptors [C12]: forall j :: 0 <= j && j < len(payloads) ==> int(payloads[j][0]) == 144 + ite(j == 0, 8, 0) + ite((j + 1) * maxFragmentSize >= len(payload), 4, 0) && int(payloads[j][1]) == 128 + int(p.pictureID) / 256 && int(payloads[j][2]) == int(p.pictureID) % 256
+//@   loop 0: invariant frag_bytes [C12]: forall j, q :: 0 <= j && j < len(payloads) && 0 <= q && q < len(payloads[j]) - 3 ==> payloads[j][3 + q] == payload[j * maxFragmentSize + q]
+//@   loop 0: decreases payloadDataRemaining
+//@ end
+
+// Non-flexible mode: |I=1,P,B,E,V,Z=1| M=1 PICTURE ID | and, on the first fragment
+// of a key frame, an 8-octet scalability structure (N_S=0,Y=1,G=1 | WIDTH | HEIGHT |
+// N_G=1 | TID=0,U=1,R=1 | P_DIFF=1); P is the frame type read from the frame header.
+//@ pure vp9NFHdr(key, j) = ite(key && j == 0, 11, 3)
+//@ pure vp9NFIdx(key, mtu, j, n) = min(n, ite(j == 0, 0, ite(key, mtu - 11, mtu - 3) + (j - 1) * (mtu - 3)))
+//@ spec (*VP9Payloader).payloadNonFlexible
+//@   requires p.pictureID < 32768
+//@   ensures sizes [C12,C08]: forall j :: 0 <= j && j < len(result0) ==> result0[j] != nil && fresh(result0[j]) && off(result0[j]) == 0 && 4 <= len(result0[j]) && len(result0[j]) <= int(mtu)
+//@   ensures picture_id [C12]: forall j :: 0 <= j && j < len(result0) ==> int(result0[j][1]) == 128 + int(p.pictureID) / 256 && int(result0[j][2]) == int(p.pictureID) % 256
+//@   ensures begin_end [C12]: forall j :: 0 <= j && j < len(result0) ==> bits(result0[j][0], 7, 7) == 1 && bits(result0[j][0], 5, 4) == 0 && bits(result0[j][0], 0, 0) == 1 && (bits(result0[j][0], 3, 3) == 1 <==> j == 0) && (bits(result0[j][0], 2, 2) == 1 <==> j == len(result0) - 1) && (bits(result0[j][0], 1, 1) == 1 ==> j == 0)
+//@   ensures ss_fixed [C12]: forall j :: 0 <= j && j < len(result0) && bits(result0[j][0], 1, 1) == 1 ==> len(result0[j]) >= 12 && int(result0[j][3]) == 24 && int(result0[j][8]) == 1 && int(result0[j][9]) == 20 && int(result0[j][10]) == 1
+//@   ensures owned [C08]: len(result0) > 0 ==> fresh(result0)
+//@   loop 0: invariant progress [C12,C08]: payloadDataIndex >= 0 && payloadDataRemaining >= 0 && payloadDataIndex + payloadDataRemaining == len(payload) && payloadDataIndex == vp9NFIdx(!header.NonKeyFrame, int(mtu), len(payloads), len(payload)) && (len(payloads) > 0 ==> int(mtu) > vp9NFHdr(!header.NonKeyFrame, 0) && fresh(payloads)) && (len(payloads) == 0 ==> cap(payloads) == 0) && len(payloads) >= 0 && (payloadDataIndex == 0 <==> len(payloads) == 0)
+//@   loop 0: invariant started_inside [C12,C08]: forall j :: 0 <= j && j < len(payloads) ==> vp9NFIdx(!header.NonKeyFrame, int(mtu), j, len(payload)) < len(payload)
+//@   loop 0: invariant next_started_inside [C12]: forall j :: 0 <= j && j + 1 < len(payloads) ==> vp9NFIdx(!header.NonKeyFrame, int(mtu), j + 1, len(payload)) < len(payload)
+//@   loop 0: invariant sizes [C12,C08]: forall j :: 0 <= j && j < len(payloads) ==> payloads[j] != nil && fresh(payloads[j]) && off(payloads[j]) == 0 && len(payloads[j]) == vp9NFHdr(!header.NonKeyFrame, j) + min(int(mtu) - vp9NFHdr(!header.NonKeyFrame, j), len(payload) - vp9NFIdx(!header.NonKeyFrame, int(mtu), j, len(payload)))
+//@   loop 0: invariant picture_id [C12]: forall j :: 0 <= j && j < len(payloads) ==> int(payloads[j][1]) == 128 + int(p.pictureID) / 256 && int(payloads[j][2]) == int(p.pictureID) % 256
+//@   loop 0: invariant begin_end [C12]: forall j :: 0 <= j && j < len(payloads) ==> bits(payloads[j][0], 7, 7) == 1 && bits(payloads[j][0], 5, 4) == 0 && bits(payloads[j][0], 0, 0) == 1 && (bits(payloads[j][0], 3, 3) == 1 <==> j == 0) && (bits(payloads[j][0], 2, 2) == 1 <==> vp9NFIdx(!header.NonKeyFrame, int(mtu), j + 1, len(payload)) == len(payload)) && (bits(payloads[j][0], 1, 1) == 1 ==> j == 0)
+//@   loop 0: invariant ss_fixed [C12]: forall j :: 0 <= j && j < len(payloads) && bits(payloads[j][0], 1, 1) == 1 ==> len(payloads[j]) >= 12 && int(payloads[j][3]) == 24 && int(payloads[j][8]) == 1 && int(payloads[j][9]) == 20 && int(payloads[j][10]) == 1
+//@   loop 0: invariant frag_bytes [C12]: forall j, q :: 0 <= j && j < len(payloads) && 0 <= q && q < len(payloads[j]) - vp9NFHdr(!header.NonKeyFrame, j) ==> payloads[j][vp9NFHdr(!header.NonKeyFrame, j) + q] == payload[vp9NFIdx(!header.NonKeyFrame, int(mtu), j, len(payload)) + q]
+//@   loop 0: decreases payloadDataRemaining
+//@ end
+
+// Payload: the running 15-bit picture id is constant within a frame and advances
+// by one per frame modulo 2^15; InitialPictureIDFn is a function value (any
+// 16-bit result), masked to 15 bits on first use.
+//@ spec (*VP9Payloader).Payload
+//@   requires p.initialized ==> p.pictureID < 32768
+//@   modifies p.*
+//@   ensures id_in_range [C12]: p.pictureID < 32768 && p.initialized
+//@   ensures id_advances [C12]: old(p.initialized) ==> int(p.pictureID) == (int(old(p.pictureID)) + 1) % 32768
+//@   ensures fragments_bounded [C08,C12]: forall j :: 0 <= j && j < len(result0) ==> result0[j] != nil && fresh(result0[j]) && 4 <= len(result0[j]) && len(result0[j]) <= int(mtu)
+//@   ensures frame_id [C12]: old(p.initialized) ==> forall j :: 0 <= j && j < len(result0) ==> int(result0[j][1]) == 128 + int(old(p.pictureID)) / 256 && int(result0[j][2]) == int(old(p.pictureID)) % 256
+//@ end
+
 //@ spec (*VP9Packet).parsePictureID
 //@   requires 0 <= pos
 //@   modifies p.PictureID
